@@ -110,6 +110,20 @@ func (r *rwRT) matchCall(fn *ssa.Function) (*State, AV, AV, *Interp) {
 			return outs[0].St, e.Args[1], e.Args[2], in
 		}
 	}
+	// the pass may build its pattern once and hand back the function that runs it
+	if len(outs[0].Ret) == 1 {
+		if cl, ok := outs[0].Ret[0].(Closure); ok {
+			ro := in.Apply(outs[0].St, cl, nil)
+			r.account(in)
+			if len(ro) == 1 && !ro[0].Panicked && !ro[0].St.Truncated {
+				for _, e := range ro[0].St.Events {
+					if e.Kind == "call" && e.Fn != nil && e.Fn.Name() == "Match" && len(e.Args) == 3 {
+						return ro[0].St, e.Args[1], e.Args[2], in
+					}
+				}
+			}
+		}
+	}
 	undecided("%s does not call Match(pattern, callback)", relName(fn))
 	return nil, nil, nil, nil
 }
@@ -307,9 +321,23 @@ func (r *rwRT) ruleOptEta() {
 		"Type": ndOpen("FuncType", map[string]Pat{"Params": pBind{"params", pAny{}}}),
 		"Body": nd("BlockStmt", map[string]Pat{"List": lst(nd("ReturnStmt", map[string]Pat{"Results": lst(nd("CallExpr", map[string]Pat{"Fun": pBind{"fun", pAny{}}, "Args": pBind{"args", pAny{}}}))}))}),
 	})
+	// ... or with the whole call bound to one variable and taken apart in the callback
+	wholeCall := false
 	if err := m.match(pattern, shape, "pattern"); err != nil {
-		c.und("OPT.ETA", "pattern shape", pos, "the eta pattern is not `func(params) { return fun(args) }`: "+err.Error())
-		return
+		m = &matcher{st: st0, binds: map[string]AV{}}
+		shape2 := ndOpen("FuncLit", map[string]Pat{
+			"Type": ndOpen("FuncType", map[string]Pat{"Params": pBind{"params", pAny{}}}),
+			"Body": nd("BlockStmt", map[string]Pat{"List": lst(nd("ReturnStmt", map[string]Pat{"Results": lst(pBind{"call", pAny{}})}))}),
+		})
+		if err2 := m.match(pattern, shape2, "pattern"); err2 != nil {
+			c.und("OPT.ETA", "pattern shape", pos, "the eta pattern is not `func(params) { return fun(args) }`: "+err.Error())
+			return
+		}
+		if e, ok := unwrap(m.binds["call"]).(Expr); !ok || !strings.Contains(e.Op, "CallExpr") {
+			c.und("OPT.ETA", "pattern shape", pos, "the eta pattern is not `func(params) { return fun(args) }`: the returned expression is not restricted to calls")
+			return
+		}
+		wholeCall = true
 	}
 	varName := func(v AV) string {
 		if e, ok := unwrap(v).(Expr); ok && strings.HasPrefix(e.Op, "MkVar") && len(e.Args) == 2 {
@@ -319,7 +347,11 @@ func (r *rwRT) ruleOptEta() {
 		return ""
 	}
 	pN, fN, aN := varName(m.binds["params"]), varName(m.binds["fun"]), varName(m.binds["args"])
-	if pN == "" || fN == "" || aN == "" {
+	cN := varName(m.binds["call"])
+	if wholeCall {
+		fN, aN = "-", "-"
+	}
+	if pN == "" || fN == "" || aN == "" || wholeCall && cN == "" {
 		c.und("OPT.ETA", "pattern shape", pos, "pattern variables not recognised")
 		return
 	}
@@ -335,7 +367,7 @@ func (r *rwRT) ruleOptEta() {
 			}
 		}
 	}
-	if exprsT == nil {
+	if exprsT == nil && !wholeCall {
 		undecided("callback of etaReduction does not read the args binding as ExprsNode")
 	}
 	tp := r.w.importedPkg(pathRw, "go/types")
@@ -501,6 +533,9 @@ func (r *rwRT) ruleOptEta() {
 			mkString(aN).String(): Dyn{T: exprsT, V: SliceV{Elems: args}},
 			mkString(fN).String(): fun,
 		}}
+		if wholeCall {
+			binds = MapV{M: map[string]AV{mkString(pN).String(): fl, mkString(cN).String(): call}}
+		}
 		ctxObj := st.alloc(&Obj{Kind: 's', Fields: map[string]AV{"Binds": binds}})
 		ctxV := StructV{Fields: map[string]AV{"MatchCtx": ctxObj, "File": Sym{Name: "file"}}}
 		same := sc.same
